@@ -7,6 +7,7 @@ import (
 	"bytes"
 	"encoding/hex"
 	"fmt"
+	"os"
 	"sync"
 	"sync/atomic"
 
@@ -30,6 +31,9 @@ var keyHex = []string{
 	"5cc868f74134032eacba191ca529115c64aa849ac121b75ca79b37420a623077",
 	"6d3ab94c10159d63a12cb26aca4b0e76070a987d49dd10fc5f526031e0580133",
 }
+
+// commit phase wait: the script driven modes have no clock (1 ms); the live mode keeps the default
+var commitTimeoutMS = 1
 
 // sent is one message an honest node handed to the transport
 type sent struct {
@@ -93,7 +97,7 @@ func (c *ctrl) CommitCertificate(qc *lib.QuorumCertificate, b *lib.Block, br *li
 	return nil
 }
 func (c *ctrl) GossipBlock(qc *lib.QuorumCertificate, sender []byte, ts uint64) {}
-func (c *ctrl) GossipConsensus(m *bft.Message, ex []byte)                     {}
+func (c *ctrl) GossipConsensus(m *bft.Message, ex []byte)                       {}
 
 // gate re-implements exactly the certificate gate of controller.HandlePeerBlock (property C02 checks the
 // real one): CheckBasic, committee of the certificate's root height, Check, not partial, proposal binding,
@@ -226,7 +230,7 @@ func newWorld(names []string, byz map[string]bool, power []uint64, valueTags []s
 	}
 	cfg := lib.DefaultConfig()
 	cfg.RunVDF = false
-	cfg.CommitTimeoutMS = 1
+	cfg.CommitTimeoutMS = commitTimeoutMS
 	cfg.NetworkID, cfg.ChainId = netID, chainID
 	for i := range w.keys {
 		c := &ctrl{w: w, id: i, rootH: 1}
@@ -234,7 +238,11 @@ func newWorld(names []string, byz map[string]bool, power []uint64, valueTags []s
 		if w.byz[i] {
 			continue
 		}
-		b, e := bft.New(cfg, w.keys[i], 1, height, c, false, nil, lib.NewNullLogger())
+		var lg lib.LoggerI = lib.NewNullLogger()
+		if os.Getenv("BFTSIM_LOG") != "" {
+			lg = lib.NewDefaultLogger()
+		}
+		b, e := bft.New(cfg, w.keys[i], 1, height, c, false, nil, lg)
 		if e != nil {
 			return nil, e
 		}
